@@ -429,7 +429,11 @@ NELEM = {"len1": 1, "long": 4099}        # 4099 = 2**12 + 3: beyond any plausibl
 
 
 def n_checked(d):
+    """number of array parameters that can be replaced by one another (aliasing forms); 0 for drivers with precomputed arguments:
+    ids / reverse indices must stay consistent with the positions (cbincount trusts them and crashes otherwise)"""
     arr, _ = params_of(d)
+    if any(str(k).startswith(("htmid:", "htmrev:")) for k in d["gen"].values()):
+        return 0
     return len([p for p in arr if p not in d["exempt"]])
 
 
